@@ -503,7 +503,7 @@ class FilterStream(Stream):
 
 # ------------------------------------------------------------------------------------------------------
 CONTENT = ["%", "%%", "%s", "%(x)s", "%(", "(", ")", "s", ")s", " ", "  ", "\n", " \n  ", "\t", "<b>", "k", "100", "d", "&"]
-VARS = ["x", "y", "count", "s"]
+VARS = ["x", "y", "count", "s", "x", "y", "a-b"]
 
 
 def tag_source(case) -> tuple:
@@ -592,9 +592,9 @@ class TagStream(Stream):
                 return ps
 
             kwargs, globs = [], {}
-            for name in ("x", "y", "s"):
+            for name in ("x", "y", "s", "a-b"):
                 r = rng.range(0, 3)
-                if r == 1:
+                if r == 1 and name != "a-b":
                     kwargs.append((name, rng.choice(["V", "", "<i>", "50%", "%(x)s", "%s"])))
                 elif r == 2:
                     globs[name] = rng.choice(["G", "%", "a  b"])
@@ -646,7 +646,7 @@ class TagStream(Stream):
 
         want = expand(chosen)
         text = "".join(p[1] if p[0] == "c" else "{{" + p[1] + "}}" for p in chosen)
-        feature = "%-before-var" if any(a[0] == "c" and a[1].endswith("%") and b[0] == "v" for a, b in zip(chosen, chosen[1:])) else ("%" if "%" in text else "plain")
+        feature = "var-not-word" if any(p[0] == "v" and any(ch not in WORDCH for ch in p[1]) for p in chosen) else "%-before-var" if any(a[0] == "c" and a[1].endswith("%") and b[0] == "v" for a, b in zip(chosen, chosen[1:])) else ("%" if "%" in text else "plain")
         if "err" in obs:
             return (f"tag|{feature}|raises-{obs['err']}", f"block {text!r} raised {obs['err']}; expected {want!r}")
         if obs["ok"] == want:
